@@ -47,6 +47,10 @@ FEATURE_SETS = {
     "full-lexer": ["--features", "full-lexer"],
     "all-ranges": ["--features", "all-nodes-with-ranges"],
     "num-bigint": ["--no-default-features", "--features", "num"],
+    # release semantics (no debug assertions / overflow checks); used by C13's thorough tier
+    "nodebug": ["--config", "profile.dev.debug-assertions=false", "--config", "profile.dev.overflow-checks=false",
+                "--config", "profile.dev.package.\"*\".debug-assertions=false",
+                "--config", "profile.dev.package.\"*\".overflow-checks=false"],
 }
 
 
